@@ -421,6 +421,24 @@ def _filter(se, env, pc, vals, cont):
     apply_closure(se, env, pc, vals[1], [Ref(cell)], k)
 
 
+@cps
+def _take_while(se, env, pc, vals, cont):
+    """iter.take_while(pred): the longest prefix on which the crate closure answers true (forks on symbolic answers)."""
+    it, clo = vals
+    items = it['it'] if isinstance(it, dict) and 'it' in it else None
+    if items is None: raise Inconclusive('take_while over %r' % (it,))
+    def step(i, e, p, acc):
+        if i == len(items): return cont({'it': list(acc)}, e, p)
+        def after(r, e2, p2):
+            if isinstance(r, bool): r = BoolVal(r)
+            if isinstance(r, Opaque): raise Inconclusive('take_while predicate is opaque')
+            def yes(): step(i + 1, e2, p2 + [r], acc + [items[i]])
+            def no(): cont({'it': list(acc)}, e2, p2 + [Not(r)])
+            se.under(r, yes); se.under(Not(r), no)
+        apply_closure(se, e, p, clo, [items[i]], after)
+    step(0, env, pc, [])
+
+
 def _fork_bool(se, r, on_true, on_false):
     """Continue on a (possibly symbolic) boolean result: both ways if it depends on the model."""
     if isinstance(r, bool): return on_true([]) if r else on_false([])
@@ -614,6 +632,9 @@ def std_summaries():
     P[r'Vec::is_empty'] = vec_is_empty
     P[r'core::slice::<impl \[.*\]>::is_empty'] = vec_is_empty
     P[r'Vec::push'] = vec_push
+    P[r'Vec::(?:reserve|reserve_exact|shrink_to_fit|shrink_to)'] = unit        # capacity only
+    P[r'<.* as Iterator>::take_while'] = _take_while
+    P[r'<.* as Iterator>::count'] = lambda se, env, pc, it: one(env, bv(len(it['it']))) if isinstance(it, dict) and 'it' in it else (_ for _ in ()).throw(Inconclusive('count of %r' % (it,)))
     P[r'Vec::clear'] = vec_clear
     # further in-place list operations (positions must be concrete on the path)
     def _rng(se, l, r):
